@@ -857,6 +857,8 @@ def value_attr(I, obj, name):
         if name == "T":
             return obj
     if isinstance(obj, Closure):
+        if name in getattr(obj, "fattrs", {}):
+            return obj.fattrs[name]
         if name == "__doc__":
             return "<doc>"
         if name == "__name__":
@@ -1151,11 +1153,11 @@ def make_builtins(I):
         seqs = [iterate(I, x) for x in a]
         if strict and len({len(x) for x in seqs}) > 1:
             raise SymRaise("ValueError", "zip() arguments have different lengths")
-        return [tuple(t) for t in zip(*seqs)]
+        return GenVal([tuple(t) for t in zip(*seqs)])
     reg("zip", b_zip)
-    reg("enumerate", lambda x, start=0: [(sp.Integer(i), v) for i, v in enumerate(iterate(I, x), concrete_int(start))])
+    reg("enumerate", lambda x, start=0: GenVal([(sp.Integer(i), v) for i, v in enumerate(iterate(I, x), concrete_int(start))]))
     reg("range", lambda *a: [sp.Integer(i) for i in range(*[concrete_int(x) for x in a])])
-    reg("reversed", lambda x: list(reversed(iterate(I, x))))
+    reg("reversed", lambda x: GenVal(list(reversed(iterate(I, x)))))
     reg("iter", lambda x: x if isinstance(x, GenVal) else GenVal(iterate(I, x)))
 
     def b_next(g, *default):
@@ -1170,7 +1172,7 @@ def make_builtins(I):
     reg("bool", lambda x=False: _pb(truth(I, x)))
     reg("callable", lambda x: isinstance(x, (Closure, Builtin, BoundMethod, ClassVal)))
     reg("type", lambda x: x.cls if isinstance(x, SymObj) and x.cls is not None else Builtin(type(x).__name__, None))
-    reg("map", lambda f, *its: [I.call(f, list(t), {}) for t in zip(*[iterate(I, x) for x in its])])
+    reg("map", lambda f, *its: GenVal([I.call(f, list(t), {}) for t in zip(*[iterate(I, x) for x in its])]))
     reg("object", lambda: I.new_obj("object"))
     reg("round", lambda x, n=None: (sp.Integer(round(float(to_expr(x)))) if n is None else to_expr(round(float(to_expr(x)), concrete_int(n))))
         if to_expr(x).is_number else sp.Function("round")(to_expr(x)))
@@ -1179,7 +1181,7 @@ def make_builtins(I):
     reg("ord", lambda c: sp.Integer(ord(c)))
     reg("chr", lambda c: chr(concrete_int(c)))
     reg("frozenset", lambda x=(): frozenset(iterate(I, x)))
-    reg("filter", lambda f, it: [x for x in iterate(I, it) if truth(I, I.call(f, [x], {}) if f is not None else x) is sp.true])
+    reg("filter", lambda f, it: GenVal([x for x in iterate(I, it) if truth(I, I.call(f, [x], {}) if f is not None else x) is sp.true]))
     reg("slice", lambda *a: slice(*[None if x is None else concrete_int(x) for x in a]))
     reg("complex", lambda re_=0, im_=0: to_expr(re_) + sp.I * to_expr(im_))
     reg("vars", lambda o: I.heap[o.id])
